@@ -77,9 +77,15 @@ class Model:
         logger.debug("step, model time: %4d %s", step, self.timer.time)
 
         self.release.update()
+
+        # Remove dead particles before the forcing is evaluated at the particles,
+        # so that writing a record does not change the particle sequence between
+        # forcing and tracking. (The dense layout keeps index == pid instead.)
+        if getattr(self.output, "layout", "sparse") != "dense":
+            self.state.compactify()
+
         self.force.update()
 
-        # self.state.compactify()
         if step >= 0:
             self.output.update()
 
